@@ -61,6 +61,9 @@ func (C11) Generate(r *rand.Rand, tier string, idx int) *drv.Scenario {
 			steps = append(steps, drv.Op{Op: "lcheck", V: 0})
 		}
 		steps = append(steps, drv.Op{Op: "lcheckall"})
+		if r.IntN(3) == 0 {
+			steps = append(steps, drv.Op{Op: "parsplitblocks", V: 0, N: seed()})
+		}
 		sc.Steps = steps
 		return lockSwarm(sc, idx)
 	}
